@@ -169,6 +169,14 @@ func TestVerifC11Prefix(t *testing.T) {
 				}
 			}
 		}
+		if c.Op == "min" {
+			o.Found = nil
+			if len(data) >= 32 {
+				if r, ok := mgr.m[string(data[:32])]; ok {
+					o.Found = append(o.Found, [2]int{0, r.(*vReg).idx})
+				}
+			}
+		}
 		n := len(data)
 		buf := bytes.NewBuffer(append([]byte(nil), data...)[:n:n])
 		var werr error
